@@ -313,6 +313,13 @@ pub fn record(seed: u64, thorough: bool, shards: usize, prefix: &str) -> Value {
             nontrivial += 1;
         }
     }
+    // every grey r = g = b in every slot (a grey is an RGB colour like any other, also where it coincides with a palette entry)
+    for slot in ["fg", "bg", "ul"] {
+        for v in 0..=255u8 {
+            emit(color_event(Color::Rgb(RgbColor(v, v, v)), slot, false));
+            nontrivial += 1;
+        }
+    }
     // styles WITHOUT effects and every subset of the three colour slots, for a few colours of each kind (constructor-shaped
     // styles such as fg.on(bg) / fg.on_default() plus an underline colour)
     {
